@@ -1415,16 +1415,23 @@ _SINGLETONS = (
 )
 
 
-_PRISTINE = [(obj, {k: (dict(v) if isinstance(v, dict) else v) for k, v in obj.__dict__.items()}) for _n, obj in _SINGLETONS]
+_PRISTINE = [(obj, {k: (v, dict(v) if isinstance(v, dict) else None) for k, v in obj.__dict__.items()}) for _n, obj in _SINGLETONS]
 
 
 def reset_singletons():
-    """Put d42's module-level visitor objects back into their import-time state.  CrossHair re-executes the harness
+    """Put d42's module-level visitor objects back into their import-time state, IN PLACE (the same dict objects keep
+    their identity, so sharing between objects - intended or not - is preserved).  CrossHair re-executes the harness
     once per path inside one process; state that a (mutated) library leaks into these objects would otherwise make
     paths irreproducible (NotDeterministic) instead of yielding a clean counterexample."""
     for obj, snap in _PRISTINE:
-        obj.__dict__.clear()
-        obj.__dict__.update({k: (dict(v) if isinstance(v, dict) else v) for k, v in snap.items()})
+        for k in list(obj.__dict__):
+            if k not in snap:
+                del obj.__dict__[k]
+        for k, (v, content) in snap.items():
+            obj.__dict__[k] = v
+            if content is not None:
+                v.clear()
+                v.update(content)
 
 
 _MODULE_STATE = []
